@@ -51,6 +51,9 @@ def replay_violation(verif, repo, pid, cfg, ob, results):
     probes_run = []
     if ob.get("counterexample"):
         rec["kani_counterexample"] = ob["counterexample"]
+    if ob.get("probe_result"):
+        probes_run.append(ob["probe_result"])
+        found = bool(ob["probe_result"].get("disagrees"))
     probes = []
     rmap = cfg.get("replay", {})
     for key, plist in rmap.items():
@@ -58,7 +61,7 @@ def replay_violation(verif, repo, pid, cfg, ob, results):
             for p in plist:
                 if p not in probes:
                     probes.append(p)
-    if probes:
+    if probes and not ob.get("probe_result"):
         ok, log = build_probes(verif, repo)
         if not ok:
             rec["probe_build_error"] = log
